@@ -23,6 +23,7 @@ func TestC01DialectRoundTrip(t *testing.T) {
 	rec.Require("v1", "v2", "signed", "id>=65536")
 	dpool := pool(t)
 	evid.Check(t, rec, evid.N(40000, 200000), func(t *rapid.T) {
+		drawBufSize(t)
 		di := drawDialect(t, dpool)
 		f, lay, val := validFrame(t, di, gen.FrameOpts{}, nil)
 		f.Payload = lay.Encode(val, f.V2)
